@@ -19,6 +19,7 @@ func init() {
 			"(R3) every eth-route decorator that reads the messages accepts only *MsgEthereumTx; (R4) the reject decorator fails on MsgEthereumTx; (R5) the recursive authz scan handles every message type that carries nested messages, recurses with the inner flag set and enforces its nesting cap; (R6) the app installs exactly this handler.",
 		Assumptions: []string{"baseapp runs the installed AnteHandler before every message execution", "gov and ICA-host execute inner messages with module accounts as signers (MsgEthereumTx.GetSigners can never match)"},
 		Declined:    nil,
+		Thorough:    wholeProgramAnteBeforeMsgs,
 	})
 }
 
